@@ -5,6 +5,7 @@ CONSTANTS
   ArgvSet <- MCArgvSet
   MaxParses = 1
   EnvChanges = FALSE
+  LetterAdds <- MCLetterAdds
 INVARIANTS TypeOK
 PROPERTIES Terminates
 CHECK_DEADLOCK FALSE
